@@ -1,4 +1,97 @@
-import EpsModel.Header
+/-
+  C12 — Misplaced buffers are refused with an alignment error, never misread.
+-/
+import EpsModel.Lemmas.Misaligned2
+import EpsModel.Lemmas.TopLevel
 namespace Eps.C12
-theorem placeholder : (1 : Nat) = 1 := rfl
+open Eps
+
+/-- Body level, both directions: on what the writer wrote, the ε-copy reader succeeds when every
+    block is on a multiple of its unit, and returns `AlignmentError` otherwise. -/
+theorem decEps_iff (base : Nat) (T : Ty) (v : Val) (hT : T.wf = true) (hv : T.wt v = true) (pos : Nat) (rest : B) :
+    (AlignedAll (.slice base) (T.blocks v pos) →
+       ∃ e, T.decEps base (T.enc v pos ++ rest) pos = .ok (e, rest, pos + (T.enc v pos).length) ∧ e.erase = v) ∧
+    (¬ AlignedAll (.slice base) (T.blocks v pos) →
+       T.decEps base (T.enc v pos ++ rest) pos = .err .alignment) := by
+  constructor
+  · intro ha
+    obtain ⟨e, he, her, _⟩ := Ty.framedEps base T hT v hv pos rest ha
+    exact ⟨e, he, her⟩
+  · exact (Ty.mis base T hT v hv).2 pos rest
+
+/-- Top level: `deserialize_eps` of a serialized stream placed at address `base` returns a value
+    exactly when every zero-copy block lands on a multiple of its unit, and `AlignmentError`
+    otherwise — for every placement, type, value, name and digest function. -/
+theorem eps_align_iff (H : B → Nat) (hH : ∀ b, H b < 2^64) (T : Ty) (name : B) (v : Val) (base : Nat)
+    (hT : T.wf = true) (hv : T.wt v = true) (hname : validUtf8 name = true) (hlen : name.length < 2^63) :
+    (AlignedAll (.slice base) (T.blocks v (T.header H name).length) →
+       ∃ e, T.deEps H base (T.ser H name v) = .ok (e, (T.ser H name v).length) ∧ e.erase = v) ∧
+    (¬ AlignedAll (.slice base) (T.blocks v (T.header H name).length) →
+       T.deEps H base (T.ser H name v) = .err .alignment) := by
+  constructor
+  · intro ha
+    obtain ⟨e, he, her, _⟩ := Ty.deEps_ser_append H hH T name v base [] hT hv hname hlen ha
+    simp only [List.append_nil] at he
+    exact ⟨e, he, her⟩
+  · intro ha
+    unfold Ty.deEps Ty.ser
+    simp only []
+    have h1 : T.typeHash H < 2^64 := hH _
+    have h2 : T.alignHash H < 2^64 := hH _
+    unfold Ty.header at ha ⊢
+    rw [checkHeader_wHeader _ _ name _ h1 h2 hname hlen]
+    simp only [Res.bind_ok]
+    have := (Ty.mis base T hT v hv).2 _ [] ha
+    simp only [List.append_nil] at this
+    rw [this]; rfl
+
+/-- A value returned is never built on a misplaced block: if `deserialize_eps` returns a value,
+    every borrowed node of it sits at an address that is a multiple of its unit (hence of the
+    native alignment of its type, which divides the unit, `unit_implies_align`). -/
+theorem no_misaligned_ref (H : B → Nat) (hH : ∀ b, H b < 2^64) (T : Ty) (name : B) (v : Val) (base : Nat)
+    (hT : T.wf = true) (hv : T.wt v = true) (hname : validUtf8 name = true) (hlen : name.length < 2^63)
+    (e : EVal) (n : Nat) (hok : T.deEps H base (T.ser H name v) = .ok (e, n)) :
+    ∀ b ∈ e.borrows, (base + b.off) % b.unit = 0 := by
+  by_cases ha : AlignedAll (.slice base) (T.blocks v (T.header H name).length)
+  · obtain ⟨e', he', _, heb⟩ := Ty.deEps_ser_append H hH T name v base [] hT hv hname hlen ha
+    simp only [List.append_nil] at he'
+    rw [he'] at hok
+    injection hok with hok
+    injection hok with h1 _
+    subst h1
+    intro b hb
+    have := ha _ (heb b hb)
+    simpa [ModeOK, Borrow.toBlock] using this
+  · have := (eps_align_iff H hH T name v base hT hv hname hlen).2 ha
+    rw [this] at hok; cases hok
+
+/-- Powers of two: the unit is a multiple of the native alignment. -/
+theorem unit_implies_align (T : Ty) (hz : T.isZC = true) (hw : T.wf = true) (x : Nat)
+    (h : x % T.maxSizeOf = 0) : x % T.alignOf = 0 := by
+  obtain ⟨⟨i, _, hi⟩, ⟨j, _, hj⟩, hle⟩ := Ty.units T hz hw
+  rw [hi] at hle ⊢; rw [hj] at hle h
+  have hij : i ≤ j := by
+    by_cases hc : i ≤ j
+    · exact hc
+    · have : 2 ^ j < 2 ^ i := Nat.pow_lt_pow_right (by omega) (by omega)
+      omega
+  have hd : 2 ^ i ∣ 2 ^ j := Nat.pow_dvd_pow 2 hij
+  exact Nat.mod_eq_zero_of_dvd (Nat.dvd_trans hd (Nat.dvd_of_mod_eq_zero h))
+
+/-- Streams containing only byte-aligned data deserialize at any address. -/
+theorem byte_aligned_anywhere (H : B → Nat) (hH : ∀ b, H b < 2^64) (T : Ty) (name : B) (v : Val) (base : Nat)
+    (hT : T.wf = true) (hv : T.wt v = true) (hname : validUtf8 name = true) (hlen : name.length < 2^63)
+    (h1 : ∀ b ∈ T.blocks v (T.header H name).length, b.unit = 1) :
+    ∃ e, T.deEps H base (T.ser H name v) = .ok (e, (T.ser H name v).length) ∧ e.erase = v := by
+  apply (eps_align_iff H hH T name v base hT hv hname hlen).1
+  intro b hb
+  simp [ModeOK, h1 b hb, Nat.mod_one]
+
+/-! Non-vacuity: `Vec<u32>` has one block of unit 4; a string only unit-1 blocks. -/
+example (pos : Nat) : (Ty.vec (.prim (.int .u32))).blocks (.seq [.bits 1]) pos
+    = [⟨pos + 8 + pad (pos + 8) 4, 4, 4⟩] := by
+  simp [Ty.blocks, Ty.blocksSeq, Ty.isZC, Ty.maxSizeOf, Prim.size, IntK.size, Ty.toMemList, Ty.toMem]
+example (pos : Nat) (b : B) : ∀ x ∈ Ty.string.blocks (.str b) pos, x.unit = 1 := by
+  intro x hx; simp [Ty.blocks] at hx; subst hx; rfl
+
 end Eps.C12
